@@ -58,6 +58,9 @@ def _classes():
         def hit(self):
             return self.label
 
+        def __bool__(self):
+            return False        # an ordinary object may well be falsy (empty container-like objects are)
+
     @api.expose
     class Relay(object):
         def give(self, k):
@@ -360,6 +363,7 @@ def run_case(case, servertype=None, keep=False):
                 cur = holder(k)
                 murky.discard(k)
                 marked.pop(k, None)
+                old_label = POOL[k].label
                 POOL[k] = fresh(k)
                 gc.collect()
                 if cur is not None:
@@ -368,8 +372,16 @@ def run_case(case, servertype=None, keep=False):
                         flags["weakgc"] = True
                     else:
                         # strongly registered: the daemon keeps it alive; the pool slot now holds a new, unregistered object
-                        model[cur] = ("gone", cur)
                         del model[cur]
+                        with live.proxy(srv.uri(cur), serializer=case["ser"]) as p:
+                            try:
+                                got = ("ok", p._pyroInvoke("hit", (), {}))
+                            except Exception as x:
+                                got = ("err", x)
+                        if got != ("ok", old_label):
+                            viol("strongly-registered-object-lost", "%s: the object registered (not weakly) under %r must stay reachable after its owner "
+                                 "dropped it, the call gave %r" % (label, cur, got))
+                            break
                         # the old object stays registered under cur but is no longer in the pool: unregister it to keep the model simple
                         try:
                             d.unregister(cur)
@@ -420,6 +432,11 @@ def _labels(case):
 
 
 CATALOGUE = [
+    [["register", 0, "x", False, True], ["register", 0, "x", True, False], ["drop", 0], ["call", "x"], ["registered"]],
+    [["register", 0, "x", False, False], ["register", 0, "x", True, True], ["give", 0], ["drop", 0], ["call", "x"], ["registered"]],
+    [["register", 1, "x", False, True], ["register", 1, "x", True, False], ["give", 1], ["unregister_obj", 1], ["give", 1], ["drop", 1], ["registered"]],
+    [["register", 1, "x", False, False], ["give", 1], ["uri", 1], ["proxyfor", 1], ["register", 1, "y", False, False], ["unregister_obj", 1], ["give", 1], ["call", "x"]],
+    [["register", 1, None, False, True], ["give", 1], ["uri", 1], ["register", 1, "y", False, True], ["unregister_obj", 1], ["give", 1], ["call", "gen0"]],
     [["register", 0, "x", False, False], ["register", 1, "x", False, False], ["call", "x"], ["registered"]],
     [["register", 0, "x", False, False], ["register", 1, "x", True, False], ["unregister_obj", 0], ["call", "x"], ["registered"], ["uri", 0], ["give", 0], ["give", 1]],
     [["register", 0, "x", False, False], ["register", 1, "x", True, False], ["uri", 0], ["proxyfor", 0], ["give", 0], ["call", "x"]],
